@@ -1,0 +1,130 @@
+//go:build verif
+
+// Contracts for the verifier in /verif (comment-only; compiled only with -tags verif, adds no code).
+package decoder
+
+// ---- C08/C06/C02: type-name candidates. A type name is offered exactly when it starts with the typed text,
+// ---- each name at most once; every candidate edits the range it was built for and its plain text is the
+// ---- type name itself (for the primitive names snippet and plain text coincide: no tab stops).
+//@ contract decoder.primitiveTypeDeclarationsAsCandidates (prefix, editRange) (result)
+//@   ensures [C08,name:exactly-the-primitive-names-that-start-with-the-typed-text] len(result) == ite(strings.HasPrefix("bool", prefix), 1, 0) + ite(strings.HasPrefix("number", prefix), 1, 0) + ite(strings.HasPrefix("string", prefix), 1, 0)
+//@   ensures [C02,C06,name:every-candidate-edits-the-given-range] forall(i, 0, len(result), result[i].TextEdit.Range == editRange)
+//@   ensures [C08,name:offered-name-starts-with-the-typed-text] forall(i, 0, len(result), strings.HasPrefix(result[i].TextEdit.NewText, prefix))
+//@   ensures [C08,name:only-primitive-type-names] forall(i, 0, len(result), (result[i].TextEdit.NewText == "bool" && result[i].Kind == lang.BoolCandidateKind) || (result[i].TextEdit.NewText == "number" && result[i].Kind == lang.NumberCandidateKind) || (result[i].TextEdit.NewText == "string" && result[i].Kind == lang.StringCandidateKind))
+//@   ensures [C06,name:plain-name-no-tab-stops] forall(i, 0, len(result), result[i].TextEdit.Snippet == result[i].TextEdit.NewText)
+// ---- (the list holds at most five entries, so "every entry" is spelled out entry by entry: quantifier-free)
+//@ spec complexTypeCandidateOK(c lang.Candidate, prefix string, editRange hcl.Range) bool = c.TextEdit.Range == editRange && ((c.Kind == lang.ListCandidateKind && strings.HasPrefix("list", prefix) && c.TextEdit.NewText == "list()") || (c.Kind == lang.SetCandidateKind && strings.HasPrefix("set", prefix) && c.TextEdit.NewText == "set()") || (c.Kind == lang.TupleCandidateKind && strings.HasPrefix("tuple", prefix) && c.TextEdit.NewText == "tuple([])") || (c.Kind == lang.MapCandidateKind && strings.HasPrefix("map", prefix) && c.TextEdit.NewText == "map()") || (c.Kind == lang.ObjectCandidateKind && strings.HasPrefix("object", prefix) && c.TextEdit.NewText == "object({\n\n})"))
+//@ contract decoder.complexTypeDeclarationsAsCandidates (prefix, editRange) (result)
+//@   ensures [C08,name:exactly-the-complex-names-that-start-with-the-typed-text] len(result) == ite(strings.HasPrefix("list", prefix), 1, 0) + ite(strings.HasPrefix("set", prefix), 1, 0) + ite(strings.HasPrefix("tuple", prefix), 1, 0) + ite(strings.HasPrefix("map", prefix), 1, 0) + ite(strings.HasPrefix("object", prefix), 1, 0)
+//@   ensures [C08,C06,C02,name:offered-only-if-its-name-starts-with-the-typed-text-and-edits-the-given-range] implies(len(result) > 0, complexTypeCandidateOK(result[0], prefix, editRange))
+//@   ensures [C08,C06,C02,name:offered-only-if-its-name-starts-with-the-typed-text-and-edits-the-given-range] implies(len(result) > 1, complexTypeCandidateOK(result[1], prefix, editRange))
+//@   ensures [C08,C06,C02,name:offered-only-if-its-name-starts-with-the-typed-text-and-edits-the-given-range] implies(len(result) > 2, complexTypeCandidateOK(result[2], prefix, editRange))
+//@   ensures [C08,C06,C02,name:offered-only-if-its-name-starts-with-the-typed-text-and-edits-the-given-range] implies(len(result) > 3, complexTypeCandidateOK(result[3], prefix, editRange))
+//@   ensures [C08,C06,C02,name:offered-only-if-its-name-starts-with-the-typed-text-and-edits-the-given-range] implies(len(result) > 4, complexTypeCandidateOK(result[4], prefix, editRange))
+// ---- all type names: the primitive and the complex ones for the same typed text and the same edit range,
+// ---- nothing else and nothing dropped.
+//@ spec primitiveTypeCandidateOK(c lang.Candidate, prefix string, editRange hcl.Range) bool = c.TextEdit.Range == editRange && strings.HasPrefix(c.TextEdit.NewText, prefix) && c.TextEdit.Snippet == c.TextEdit.NewText && ((c.TextEdit.NewText == "bool" && c.Kind == lang.BoolCandidateKind) || (c.TextEdit.NewText == "number" && c.Kind == lang.NumberCandidateKind) || (c.TextEdit.NewText == "string" && c.Kind == lang.StringCandidateKind))
+//@ spec typeCandidateOK(c lang.Candidate, prefix string, editRange hcl.Range) bool = primitiveTypeCandidateOK(c, prefix, editRange) || complexTypeCandidateOK(c, prefix, editRange)
+//@ contract decoder.allTypeDeclarationsAsCandidates (prefix, editRange) (result)
+//@   ensures [C08,name:exactly-the-type-names-that-start-with-the-typed-text] len(result) == ite(strings.HasPrefix("bool", prefix), 1, 0) + ite(strings.HasPrefix("number", prefix), 1, 0) + ite(strings.HasPrefix("string", prefix), 1, 0) + ite(strings.HasPrefix("list", prefix), 1, 0) + ite(strings.HasPrefix("set", prefix), 1, 0) + ite(strings.HasPrefix("tuple", prefix), 1, 0) + ite(strings.HasPrefix("map", prefix), 1, 0) + ite(strings.HasPrefix("object", prefix), 1, 0)
+//@   ensures [C02,C06,name:every-candidate-edits-the-given-range] forall(i, 0, len(result), result[i].TextEdit.Range == editRange)
+//@   ensures [C08,C06,C02,name:every-candidate-is-a-type-name-that-starts-with-the-typed-text] implies(len(result) > 0, typeCandidateOK(result[0], prefix, editRange))
+//@   ensures [C08,C06,C02,name:every-candidate-is-a-type-name-that-starts-with-the-typed-text] implies(len(result) > 1, typeCandidateOK(result[1], prefix, editRange))
+//@   ensures [C08,C06,C02,name:every-candidate-is-a-type-name-that-starts-with-the-typed-text] implies(len(result) > 2, typeCandidateOK(result[2], prefix, editRange))
+//@   ensures [C08,C06,C02,name:every-candidate-is-a-type-name-that-starts-with-the-typed-text] implies(len(result) > 3, typeCandidateOK(result[3], prefix, editRange))
+//@   ensures [C08,C06,C02,name:every-candidate-is-a-type-name-that-starts-with-the-typed-text] implies(len(result) > 4, typeCandidateOK(result[4], prefix, editRange))
+//@   ensures [C08,C06,C02,name:every-candidate-is-a-type-name-that-starts-with-the-typed-text] implies(len(result) > 5, typeCandidateOK(result[5], prefix, editRange))
+//@   ensures [C08,C06,C02,name:every-candidate-is-a-type-name-that-starts-with-the-typed-text] implies(len(result) > 6, typeCandidateOK(result[6], prefix, editRange))
+//@   ensures [C08,C06,C02,name:every-candidate-is-a-type-name-that-starts-with-the-typed-text] implies(len(result) > 7, typeCandidateOK(result[7], prefix, editRange))
+
+// ---- C06/C02: the fixed candidates offered inside object(...) / tuple(...): exactly one, editing the range it
+// ---- was built for, with a plain text free of tab-stop syntax.
+//@ contract decoder.innerObjectTypeAsCompletionCandidates (editRange) (result)
+//@   ensures [C06,C02,name:one-candidate-editing-the-given-range] len(result) == 1 && result[0].TextEdit.Range == editRange
+//@   ensures [C08,C06,name:an-object-body-in-plain-text] result[0].Kind == lang.ObjectCandidateKind && result[0].TextEdit.NewText == "{\n\n}"
+//@ contract decoder.innerTupleTypeAsCompletionCandidates (editRange) (result)
+//@   ensures [C06,C02,name:one-candidate-editing-the-given-range] len(result) == 1 && result[0].TextEdit.Range == editRange
+//@   ensures [C08,C06,name:a-tuple-body-in-plain-text] result[0].Kind == lang.TupleCandidateKind && result[0].TextEdit.NewText == "[]"
+//@ contract decoder.objectAttributeItemAsCompletionCandidate (editRange) (result)
+//@   ensures [C06,C02,name:edits-the-given-range] result.TextEdit.Range == editRange
+//@   ensures [C08,C06,name:an-attribute-item-in-plain-text] result.Kind == lang.AttributeCandidateKind && result.TextEdit.NewText == "name = "
+
+// ---- C08/C06/C02: completion of a type declaration.
+//@ spec tdTrav(e hcl.Expression) *hclsyntax.ScopeTraversalExpr = as(e, "*hclsyntax.ScopeTraversalExpr")
+//@ spec tdCall(e hcl.Expression) *hclsyntax.FunctionCallExpr = as(e, "*hclsyntax.FunctionCallExpr")
+//@ contract (decoder.TypeDeclaration).CompletionAtPos (td, ctx, pos) (result)
+//@   assert before decoder.allTypeDeclarationsAsCandidates#4 : [C06,C02,name:edit-between-the-parentheses-starts-at-or-before-the-cursor] arg1.Start.Byte <= pos.Byte
+//@   ensures [C08,name:a-type-name-is-one-word] implies(typeis(td.expr, "*hclsyntax.ScopeTraversalExpr") && len(tdTrav(td.expr).Traversal) != 1, len(result) == 0)
+//@   ensures [C08,name:nothing-for-other-expressions] implies(!isEmptyExpression(td.expr) && !typeis(td.expr, "*hclsyntax.ScopeTraversalExpr") && !typeis(td.expr, "*hclsyntax.FunctionCallExpr"), len(result) == 0)
+//@   assert before decoder.allTypeDeclarationsAsCandidates#1 : [C08,C06,C02,name:empty-value-everything-inserted-at-the-cursor] arg0 == "" && arg1.Filename == td.expr.Range().Filename && arg1.Start == pos && arg1.End == pos
+//@   assert before decoder.allTypeDeclarationsAsCandidates#2 : [C08,name:typed-text-is-the-name-up-to-the-cursor] len(arg0) == pos.Byte - td.expr.Range().Start.Byte
+//@   assert before decoder.allTypeDeclarationsAsCandidates#2 : [C06,C02,name:the-written-name-is-replaced] arg1.Filename == td.expr.Range().Filename && arg1.Start == td.expr.Range().Start && arg1.End == td.expr.Range().End && arg1.Start.Byte <= pos.Byte
+//@   assert before decoder.allTypeDeclarationsAsCandidates#3 : [C08,name:typed-text-is-the-name-up-to-the-cursor] len(arg0) == pos.Byte - tdCall(td.expr).NameRange.Start.Byte
+//@   assert before decoder.allTypeDeclarationsAsCandidates#3 : [C08,name:typed-text-is-the-name-up-to-the-cursor] tdCall(td.expr).NameRange.Start.Byte <= pos.Byte && pos.Byte < tdCall(td.expr).NameRange.End.Byte
+//@   assert before decoder.allTypeDeclarationsAsCandidates#3 : [C06,C02,name:the-written-call-is-replaced] arg1 == td.expr.Range()
+//@   assert before decoder.allTypeDeclarationsAsCandidates#3 : [C06,C02,name:edit-starts-at-or-before-the-cursor] arg1.Start.Byte <= pos.Byte
+//@   assert before decoder.allTypeDeclarationsAsCandidates#4 : [C08,C06,C02,name:element-type-between-the-parentheses] arg0 == "" && arg1.Filename == td.expr.Range().Filename && arg1.Start == tdCall(td.expr).OpenParenRange.End && arg1.End == tdCall(td.expr).CloseParenRange.Start
+//@   assert before decoder.allTypeDeclarationsAsCandidates#4 : [C08,C06,name:cursor-not-outside-the-parentheses] tdCall(td.expr).OpenParenRange.Start.Byte <= pos.Byte && pos.Byte < tdCall(td.expr).CloseParenRange.End.Byte && isTypeNameWithElementOnly(tdCall(td.expr).Name) && len(tdCall(td.expr).Args) == 0
+//@   assert before (decoder.TypeDeclaration).objectCompletionAtPos#1 : [C08,C06,name:cursor-not-outside-the-parentheses] tdCall(td.expr).OpenParenRange.Start.Byte <= pos.Byte && pos.Byte < tdCall(td.expr).CloseParenRange.End.Byte
+//@   assert before (decoder.TypeDeclaration).tupleCompletionAtPos#1 : [C08,C06,name:cursor-not-outside-the-parentheses] tdCall(td.expr).OpenParenRange.Start.Byte <= pos.Byte && pos.Byte < tdCall(td.expr).CloseParenRange.End.Byte
+//@   assert before (decoder.TypeDeclaration).CompletionAtPos#1 : [C08,name:the-element-type-under-the-cursor] isTypeNameWithElementOnly(tdCall(td.expr).Name) && len(tdCall(td.expr).Args) == 1 && arg0.expr == tdCall(td.expr).Args[0] && arg0.pathCtx == td.pathCtx && arg2 == pos && tdCall(td.expr).Args[0].Range().ContainsPos(pos)
+//@   assert before (decoder.TypeDeclaration).objectCompletionAtPos#1 : [C08,name:object-body-of-this-call] tdCall(td.expr).Name == "object" && arg2 == tdCall(td.expr) && arg3 == pos && arg0.pathCtx == td.pathCtx
+//@   assert before (decoder.TypeDeclaration).tupleCompletionAtPos#1 : [C08,name:tuple-body-of-this-call] tdCall(td.expr).Name == "tuple" && arg2 == tdCall(td.expr) && arg3 == pos && arg0.pathCtx == td.pathCtx
+
+// ---- object({ name = type, ... }): which item is being completed. The scan over the written items goes on only
+// ---- past items that start at or before the cursor and do not hold it (key, value, or the gap between them);
+// ---- the value under (or ending at) the cursor is completed as a type declaration of its own; a new
+// ---- "name = type" item is offered only on a line of its own (or behind a comma), types only behind '='.
+//@ contract (decoder.TypeDeclaration).objectCompletionAtPos (td, ctx, funcExpr, pos) (result)
+//@   requires [C06,C02,name:cursor-behind-the-opening-parenthesis] funcExpr.OpenParenRange.End.Byte <= pos.Byte
+//@   assert before decoder.innerObjectTypeAsCompletionCandidates#1 : [C06,C02,name:edit-between-the-parentheses-starts-at-or-before-the-cursor] arg0.Start.Byte <= pos.Byte
+//@   requires funcExpr != nil
+//@   ensures [C08,name:one-object-body-only] implies(len(funcExpr.Args) > 1, len(result) == 0)
+//@   ensures [C08,name:the-body-is-an-object-constructor] implies(len(funcExpr.Args) == 1 && !typeis(funcExpr.Args[0], "*hclsyntax.ObjectConsExpr"), len(result) == 0)
+//@   ensures [C08,name:nothing-outside-the-braces] implies(len(funcExpr.Args) == 1 && !funcExpr.Args[0].Range().ContainsPos(pos), len(result) == 0)
+//@   assert before decoder.innerObjectTypeAsCompletionCandidates#1 : [C06,C02,name:body-between-the-parentheses] arg0.Filename == funcExpr.Range().Filename && arg0.Start == funcExpr.OpenParenRange.End && arg0.End == funcExpr.CloseParenRange.Start
+//@   assert before decoder.objectAttributeItemAsCompletionCandidate#1 : [C06,C02,name:new-item-inserted-at-the-cursor] len(objExpr.Items) == 0 && arg0.Filename == objExpr.Range().Filename && arg0.Start == pos && arg0.End == pos
+//@   assert before decoder.allTypeDeclarationsAsCandidates#1 : [C08,C06,C02,name:type-inserted-at-the-cursor-behind-the-equals-sign] arg0 == "" && arg1.Filename == objExpr.Range().Filename && arg1.Start == pos && arg1.End == pos && remainingBytes[len(remainingBytes)-1] == '='
+//@   loop 1 iter [C08,name:scan-goes-on-only-past-items-before-the-cursor] item.KeyExpr.Range().Start.Byte <= pos.Byte && !item.KeyExpr.Range().ContainsPos(pos) && !emptyRange.ContainsPos(pos) && !(item.ValueExpr.Range().ContainsPos(pos) || item.ValueExpr.Range().End.Byte == pos.Byte)
+//@   loop 1 iter [C08,name:recovery-starts-behind-the-last-item-before-the-cursor] recoveryPos == item.ValueExpr.Range().End && lastItemRange != nil
+//@   assert before (decoder.TypeDeclaration).CompletionAtPos#1 : [C08,name:the-value-under-the-cursor] arg0.expr == objExpr.Items[rangeindex + 1].ValueExpr && arg0.pathCtx == td.pathCtx && arg2 == pos && (item.ValueExpr.Range().ContainsPos(pos) || item.ValueExpr.Range().End.Byte == pos.Byte)
+//@   assert before decoder.objectAttributeItemAsCompletionCandidate#2 : [C06,C02,name:new-item-inserted-at-the-cursor] arg0.Filename == objExpr.Range().Filename && arg0.Start == pos && arg0.End == pos
+//@   assert before decoder.objectAttributeItemAsCompletionCandidate#2 : [C08,name:new-item-only-on-its-own-line-or-behind-a-comma] len(trimmedBytes) == 1 && isObjectItemTerminatingRune(int32(trimmedBytes[0])) && (nextItemRange == nil || nextItemRange.Start.Line != pos.Line) && (lastItemRange == nil || lastItemRange.End.Line != pos.Line || trimmedBytes[0] == ',')
+//@   assert before decoder.allTypeDeclarationsAsCandidates#2 : [C08,C06,C02,name:type-inserted-at-the-cursor-behind-the-equals-sign] arg0 == "" && arg1.Filename == objExpr.Range().Filename && arg1.Start == pos && arg1.End == pos && trimmedBytes[len(trimmedBytes)-1] == '='
+//@ contract (decoder.TypeDeclaration).objectCompletionAtPos$1 (offset, r) (stop)
+//@   ensures [C08,name:recovery-stops-at-an-item-terminator-behind-the-last-item] stop == (isObjectItemTerminatingRune(r) && offset > recoveryPos.Byte)
+
+// ---- tuple([type, ...]): the element under (or ending at) the cursor is completed as a type declaration of its
+// ---- own; otherwise a type is offered at the cursor only between the brackets.
+//@ contract (decoder.TypeDeclaration).tupleCompletionAtPos (td, ctx, funcExpr, pos) (result)
+//@   requires [C06,C02,name:cursor-behind-the-opening-parenthesis] funcExpr.OpenParenRange.End.Byte <= pos.Byte
+//@   assert before decoder.innerTupleTypeAsCompletionCandidates#1 : [C06,C02,name:edit-between-the-parentheses-starts-at-or-before-the-cursor] arg0.Start.Byte <= pos.Byte
+//@   requires funcExpr != nil
+//@   ensures [C08,name:one-tuple-body-only] implies(len(funcExpr.Args) > 1, len(result) == 0)
+//@   ensures [C08,name:the-body-is-a-tuple-constructor] implies(len(funcExpr.Args) == 1 && !typeis(funcExpr.Args[0], "*hclsyntax.TupleConsExpr"), len(result) == 0)
+//@   assert before decoder.innerTupleTypeAsCompletionCandidates#1 : [C06,C02,name:body-between-the-parentheses] arg0.Filename == funcExpr.Range().Filename && arg0.Start == funcExpr.OpenParenRange.End && arg0.End == funcExpr.CloseParenRange.Start
+//@   loop 1 iter [C08,name:scan-goes-on-only-past-elements-that-do-not-hold-the-cursor] !(expr.Range().ContainsPos(pos) || expr.Range().End.Byte == pos.Byte)
+//@   assert before (decoder.TypeDeclaration).CompletionAtPos#1 : [C08,name:the-element-under-the-cursor] arg0.expr == tupleExpr.Exprs[rangeindex + 1] && arg0.pathCtx == td.pathCtx && arg2 == pos && (expr.Range().ContainsPos(pos) || expr.Range().End.Byte == pos.Byte)
+//@   assert before decoder.allTypeDeclarationsAsCandidates#1 : [C08,C06,C02,name:new-element-inserted-at-the-cursor] arg0 == "" && arg1.Filename == tupleExpr.Range().Filename && arg1.Start == pos && arg1.End == pos
+//@   assert before decoder.allTypeDeclarationsAsCandidates#1 : [C08,name:new-element-only-between-the-brackets] pos.Byte <= tupleExpr.SrcRange.End.Byte - 1 && (tupleExpr.OpenRange.End.Byte <= pos.Byte || pos.Byte == tupleExpr.SrcRange.End.Byte - 1)
+
+// ---- C13/C02: tokens of object({...}) / tuple([...]). The type keyword gets a token on the name of the call
+// ---- (stated where no body follows; element contents are not tracked across the recursive calls); an object item gets an attribute-name token on its key (only when the key can be decoded) followed by
+// ---- the tokens of its own value read as a type declaration; a tuple element is read as a type declaration.
+//@ contract (decoder.TypeDeclaration).objectSemanticTokens (td, ctx, funcExpr) (result)
+//@   requires funcExpr != nil
+//@   ensures [C13,C02,name:keyword-token-on-the-call-name-alone-without-a-single-body] implies(len(funcExpr.Args) != 1, len(result) == 1 && result[0].Type == lang.TokenTypeComplex && result[0].Range == funcExpr.NameRange)
+//@   ensures [C13,name:the-body-is-an-object-constructor] implies(len(funcExpr.Args) == 1 && !typeis(funcExpr.Args[0], "*hclsyntax.ObjectConsExpr"), len(result) == 0)
+//@   ensures [C13,name:keyword-token-whenever-the-body-is-an-object] implies(len(funcExpr.Args) == 1 && typeis(funcExpr.Args[0], "*hclsyntax.ObjectConsExpr"), len(result) >= 1)
+//@   loop 1 invariant [C13] fresh(tokens) && len(tokens) >= 1
+//@   loop 1 iter [C13,name:every-decodable-item-adds-its-key-token] len(tokens) >= old(len(tokens)) + 1
+//@   assert before (decoder.TypeDeclaration).SemanticTokens#1 : [C13,C02,name:key-token-on-the-key-of-the-item] ok && tokens[len(tokens)-1].Type == lang.TokenAttrName && tokens[len(tokens)-1].Range == objExpr.Items[rangeindex + 1].KeyExpr.Range()
+//@   assert before (decoder.TypeDeclaration).SemanticTokens#1 : [C13,name:value-of-the-item-read-as-a-type] arg0.expr == objExpr.Items[rangeindex + 1].ValueExpr && arg0.pathCtx == td.pathCtx
+//@ contract (decoder.TypeDeclaration).tupleSemanticTokens (td, ctx, funcExpr) (result)
+//@   requires funcExpr != nil
+//@   ensures [C13,C02,name:keyword-token-on-the-call-name-alone-without-a-single-body] implies(len(funcExpr.Args) != 1, len(result) == 1 && result[0].Type == lang.TokenTypeComplex && result[0].Range == funcExpr.NameRange)
+//@   ensures [C13,name:the-body-is-a-tuple-constructor] implies(len(funcExpr.Args) == 1 && !typeis(funcExpr.Args[0], "*hclsyntax.TupleConsExpr"), len(result) == 0)
+//@   ensures [C13,name:keyword-token-whenever-the-body-is-a-tuple] implies(len(funcExpr.Args) == 1 && typeis(funcExpr.Args[0], "*hclsyntax.TupleConsExpr"), len(result) >= 1)
+//@   loop 1 invariant [C13] fresh(tokens) && len(tokens) >= 1
+//@   loop 1 iter [C13,name:tokens-only-added] len(tokens) >= old(len(tokens))
+//@   assert before (decoder.TypeDeclaration).SemanticTokens#1 : [C13,name:element-read-as-a-type] arg0.expr == tupleExpr.Exprs[rangeindex + 1] && arg0.pathCtx == td.pathCtx
